@@ -155,7 +155,7 @@ Proof.
     + rewrite Forall_forall in *. intros b Hb Hd. destruct (D2 b Hb Hd) as (B1 & B2). split; [|exact B2].
       eapply next_due_deadline; eauto.
     + intro L. match goal with Q : quiescent c s = true |- _ =>
-        destruct (quiescent_loop c s KI Q) as [X|[X|[(tt & X & _)|X]]]; congruence end.
+        destruct (quiescent_loop c s KI Q) as [X|[X|[(tt & X & _)|[X|(tt & X & _)]]]]; congruence end.
 Qed.
 
 Lemma dinv_init c : DInv c (init c).
@@ -214,7 +214,7 @@ Lemma audit_check_effect c s s' o :
   step c s ILoopAuditCheck = Some (s', o) ->
   loop s = LIdle /\ t_pending (tk_audit s) = true /\ t_pending (tk_audit s') = false
   /\ target s' = target s /\ tokens s' = tokens s /\ buffer s' = buffer s /\ batches s' = batches s
-  /\ ((o = [OEvAuditSkip] /\ loop s' = LIdle /\ (buffer s <> [] \/ idle_long_enough c s = false))
+  /\ ((o = [OEvAuditSkip] /\ loop s' = after_event s (c_busy_audit c) /\ (buffer s <> [] \/ idle_long_enough c s = false))
       \/ (o = [] /\ loop s' = LAuditPending /\ buffer s = [] /\ idle_long_enough c s = true)).
 Proof.
   simpl. unfold do_audit_check. intro H.
@@ -231,7 +231,7 @@ Qed.
    audit-fail names what was non-zero and both are zero afterwards (V1 has no slot count) *)
 Lemma audit_confirm_effect c s s' o :
   step c s ILoopAuditConfirm = Some (s', o) ->
-  loop s = LAuditPending /\ loop s' = LIdle /\ target s' = 0
+  loop s = LAuditPending /\ loop s' = after_event s (c_busy_audit c) /\ target s' = 0
   /\ (c_gen c = V2 -> tokens s' = 0%nat) /\ (c_gen c = V1 -> tokens s' = tokens s)
   /\ buffer s' = buffer s /\ batches s' = batches s /\ counted s' = counted s
   /\ let tbad := 0 <? target s in
